@@ -259,4 +259,74 @@ theorem lan_untracked_tcp_passes (rt : RouteIn → Int) (w : World) (s : Skb) (l
     obtain ⟨t, st, hte⟩ := touchTcp_eq cs w.now (p.fin || p.rst)
     rw [← hm, hte]; exact hl cs hlv
 
+/-! ## WAN egress -/
+
+/-- **Forwarded traffic is not captured on the WAN hook**: only locally originated frames
+(`ingress_ifindex == 0`) are subject to WAN routing. -/
+theorem wan_forwarded_passes (rt : RouteIn → Int) (w : World) (s : Skb) (l2 : Bool) (h : s.ingressIf ≠ 0) :
+    wanEgress rt w s l2 = (w, outOk s s.mark) := by
+  unfold wanEgress; simp [h]
+
+/-- **New TCP connection of a local process** (not dae).  The SYN is routed by the current rule
+program with the sender's process name; fate: direct without mark ⇒ passed untouched; direct with a
+mark ⇒ handed to dae, which applies it; block ⇒ dropped; dead group ⇒ dropped (port 53 excepted);
+otherwise handed to dae.  Unless the decision is plain direct (direct, no mark, not `must`) it is
+cached in the conn-state entry, from which `RetrieveRoutingResult` returns exactly (outbound, mark,
+must, DSCP, source MAC, process name, pid) at any later time. -/
+theorem wan_new_tcp_connection (rt : RouteIn → Int) (w : World) (s : Skb) (l2 : Bool) (p : Pkt)
+    (hi : s.ingressIf = 0) (hp : parsePacket s.raw l2 = .pkt p) (ht : p.l4proto = IPPROTO_TCP)
+    (hs : p.syn = true) (ha : p.ack = false)
+    (hcp : (pidIsControlPlane w s).isCp = false)
+    (hr : 0 ≤ rt (wanRouteIn s p true (ppName (pidIsControlPlane w s).pp) (if l2 then p.ethSrc else zeros 6)))
+    (hc : connRoom w p.tuples.five) (hrt : rtrackRoom w s p) :
+    let d := unpackRoute (rt (wanRouteIn s p true (ppName (pidIsControlPlane w s).pp) (if l2 then p.ethSrc else zeros 6)))
+    (wanEgress rt w s l2).2.realises w s false (wanFate w s p d) ∧
+    (¬ (d.ob = OUTBOUND_DIRECT ∧ d.mark = 0 ∧ d.must = 0) →
+      ∀ t, retrieve (wanEgress rt w s l2).1 p.tuples.five t =
+        some ⟨d.mark, d.must, if l2 then p.ethSrc else zeros 6, d.ob, ppName (pidIsControlPlane w s).pp,
+              ppPid (pidIsControlPlane w s).pp, p.tuples.dscp⟩) := by
+  intro d
+  rw [wanEgress_tcp rt w s l2 p hi hp ht]
+  unfold wanEgressTcp
+  simp only [hs, ha, Bool.not_false, Bool.and_self, if_true]
+  unfold wanTcpSyn
+  have hneg : ¬ rt (wanRouteIn s p true (ppName (pidIsControlPlane w s).pp) (if l2 then p.ethSrc else zeros 6)) < 0 := by
+    omega
+  simp only [hcp, Bool.false_eq_true, if_false, hneg]
+  have hrest0 := pidIsControlPlane_rest w s
+  have hc' : connRoom (pidIsControlPlane w s).w p.tuples.five :=
+    (connRoom_congr (pidIsControlPlane_conn w s) hrest0 _).mpr hc
+  rw [markTcpSeen_syn_room _ p.tuples.five false (p.fin || p.rst) _ hc']
+  have hrest : ({ (pidIsControlPlane w s).w with conn := aerase (pidIsControlPlane w s).w.conn p.tuples.five ++
+      [(p.tuples.five, newConnState false (pidIsControlPlane w s).w.now
+        { rt := if d.ob = OUTBOUND_DIRECT ∧ d.mark = 0 ∧ d.must = 0 then none else some (d.ob, d.mark, d.must),
+          mac := some (if l2 then p.ethSrc else zeros 6), dscp := p.tuples.dscp,
+          pname := Option.map (fun x => x.pname) (pidIsControlPlane w s).pp,
+          pid := ppPid (pidIsControlPlane w s).pp })] } : World).rest = w.rest := hrest0
+  constructor
+  · have := wanVerdict_realises _ s l2 p true d (if l2 then p.ethSrc else zeros 6) (ppName (pidIsControlPlane w s).pp)
+      (ppPid (pidIsControlPlane w s).pp) false (by rw [ht]; rfl) ((rtrackRoom_congr hrest s p).mpr hrt)
+      (by intro h; cases h)
+    rw [wanFate_congr hrest, realises_congr hrest] at this
+    simpa [d, Bool.and_eq_true, decide_eq_true_eq, beq_iff_eq, and_assoc] using this
+  · intro hnp t
+    have hrt' : (if (decide (d.ob = OUTBOUND_DIRECT) && d.mark == 0 && d.must == 0) = true then none
+        else some (d.ob, d.mark, d.must)) = some (d.ob, d.mark, d.must) := by
+      have : (decide (d.ob = OUTBOUND_DIRECT) && d.mark == 0 && d.must == 0) = false := by
+        cases hx : (decide (d.ob = OUTBOUND_DIRECT) && d.mark == 0 && d.must == 0)
+        · rfl
+        · exfalso; apply hnp
+          simp only [Bool.and_eq_true, decide_eq_true_eq, beq_iff_eq] at hx
+          exact ⟨hx.1.1, hx.1.2, hx.2⟩
+      simp [this]
+    rw [retrieve_of_conn _ _ t (newConnState false (pidIsControlPlane w s).w.now
+        { rt := some (d.ob, d.mark, d.must), mac := some (if l2 then p.ethSrc else zeros 6), dscp := p.tuples.dscp,
+          pname := Option.map (fun x => x.pname) (pidIsControlPlane w s).pp,
+          pid := ppPid (pidIsControlPlane w s).pp })
+        (by simp only [d, hrt', wanVerdict_conn]
+            exact alookup_erase_append_self (pidIsControlPlane w s).w.conn p.tuples.five _)
+        (by simp [newConnState]) (Or.inl (by rw [parsePacket_l4 hp, ht]))]
+    simp only [newConnState, Option.getD_some]
+    cases (pidIsControlPlane w s).pp <;> rfl
+
 end DaeVerif.C03.Props
